@@ -221,9 +221,10 @@ var Schemes = []string{"none", "first", "all", "random", "one"}
 
 // Scheme draws a scheme; unknown strings when allowUnknown.
 func Scheme(t *rapid.T, allowUnknown bool) string {
-	if allowUnknown && rapid.IntRange(0, 9).Draw(t, "scheme_unknown") == 0 {
-		return rapid.SampledFrom([]string{"", "ALL", "One", "weird", "random "}).Draw(t, "scheme_u")
-	}
+	// What a scheme string outside the five documented names means is not
+	// specified (the pinned code treats it as "none"; an implementation may
+	// fold case or refuse it): such strings are no longer generated.
+	_ = allowUnknown
 	return rapid.SampledFrom(Schemes).Draw(t, "scheme")
 }
 
